@@ -84,6 +84,12 @@ func (o *ObjectSchema) ApplyNamespace(objects map[string]*ObjectSchema, namespac
 }
 
 func (o *ObjectSchema) ValidateReferences() error {
+	// Default values are decoded lazily on first use; make sure that this cannot fail later.
+	if o.defaultValues == nil {
+		if _, err := tryExtractObjectDefaultValues(o.PropertiesValue); err != nil {
+			return err
+		}
+	}
 	for _, property := range o.PropertiesValue {
 		err := property.ValidateReferences()
 		if err != nil {
@@ -748,6 +754,14 @@ func validateObjectIsStruct[T any]() {
 }
 
 func extractObjectDefaultValues(properties map[string]*PropertySchema) map[string]any {
+	defaultValues, err := tryExtractObjectDefaultValues(properties)
+	if err != nil {
+		panic(err)
+	}
+	return defaultValues
+}
+
+func tryExtractObjectDefaultValues(properties map[string]*PropertySchema) (map[string]any, error) {
 	defaultValues := map[string]any{}
 	for propertyID, property := range properties {
 		if property.Default() != nil {
@@ -756,15 +770,15 @@ func extractObjectDefaultValues(properties map[string]*PropertySchema) map[strin
 			propertyType := property.TypeID()
 			err := jsonUnmarshal(defaultValue, &value, propertyType)
 			if err != nil {
-				panic(BadArgumentError{
+				return nil, BadArgumentError{
 					Message: fmt.Sprintf("Default value for property %s is not a valid JSON", propertyID),
 					Cause:   err,
-				})
+				}
 			}
 			defaultValues[propertyID] = value
 		}
 	}
-	return defaultValues
+	return defaultValues, nil
 }
 
 func jsonUnmarshal(defaultValue string, value any, propertryType TypeID) error {
